@@ -406,6 +406,8 @@ def np_array(ex, args, kw):
     else:
         raise Unsupported(f"np.array({typetag(v)})")
     d = dtype_of(dt, None)
+    if not items and d is not None:
+        return NDArray([0], lambda idx: 0, d)        # np.array([], dtype=...): empty, but of that element type
     if items and all(isinstance(x, (str, SStr)) for x in items):
         if d in ("int", "f8"):
             return Vec([str_to_number(ex, x, d) for x in items])
@@ -848,6 +850,11 @@ def vec_ndim(ex, self):
 @attr(["NDArray", "Vec"], "size")
 def nd_size(ex, self):
     return as_ndarray(self).size()
+
+
+@attr(["NDArray"], "itemsize")
+def nd_itemsize(ex, self):
+    return dtype_itemsize(ex, DType(self.dtype))
 
 
 @attr(["NDArray", "Vec"], "dtype")
